@@ -232,6 +232,7 @@ pub fn run(ctx: &Ctx, rep: &mut Report) {
         }
         rep.completed.push(format!("planted indels k={k}"));
     }
+    rep.sample(json!({"k": 15, "segs": [[60, 3]], "present": [[true, false, true, false]], "flip": [false, false, false, false], "oracle": "before+REF+after in exactly the samples genotyped 0, before+ALT+after in exactly those genotyped 1"}));
     rep.extra.insert("planted_indels".into(), json!(planted_total));
     rep.extra.insert("planted_indels_reported".into(), json!(found_total));
 }
